@@ -93,7 +93,7 @@ func mwReg(name string, nExtra int, body mwBody) {
 }
 
 func init() {
-	curve := bec.S256()
+	// bec.S256() must not be called at package initialisation (see gen_codec.go: `harness conc`)
 	encrypt := func(win []byte, a []string) string {
 		tp, ok := parseTape(a[2])
 		if !ok {
@@ -115,7 +115,7 @@ func init() {
 	mwReg("mem.encrypt_old", 3, encrypt)
 	mwReg("mem.decrypt", 1, func(win []byte, a []string) string {
 		priv := &bec.PrivateKey{D: mwNat(a[0])}
-		priv.Curve = curve
+		priv.Curve = bec.S256()
 		out, err := bec.Decrypt(priv, win)
 		if err != nil {
 			return "err"
@@ -186,7 +186,7 @@ func init() {
 		return nhx(sig.R) + " " + nhx(sig.S)
 	})
 	mwReg("mem.signcompact", 2, func(win []byte, a []string) string {
-		out, err := bec.SignCompact(curve, privOf(mwNat(a[0])), win, a[1] == "1")
+		out, err := bec.SignCompact(bec.S256(), privOf(mwNat(a[0])), win, a[1] == "1")
 		if err != nil {
 			return "err"
 		}
@@ -197,36 +197,36 @@ func init() {
 		return b2s(sig.Verify(win, pubOf(mwNat(a[0]), mwNat(a[1]))))
 	})
 	mwReg("mem.parsepub", 0, func(win []byte, a []string) string {
-		k, err := bec.ParsePubKey(win, curve)
+		k, err := bec.ParsePubKey(win, bec.S256())
 		if err != nil {
 			return "err"
 		}
 		return ptStr(k.X, k.Y)
 	})
 	mwReg("mem.parsesig", 0, func(win []byte, a []string) string {
-		sig, err := bec.ParseSignature(win, curve)
+		sig, err := bec.ParseSignature(win, bec.S256())
 		if err != nil {
 			return "err"
 		}
 		return nhx(sig.R) + " " + nhx(sig.S)
 	})
 	mwReg("mem.parseder", 0, func(win []byte, a []string) string {
-		sig, err := bec.ParseDERSignature(win, curve)
+		sig, err := bec.ParseDERSignature(win, bec.S256())
 		if err != nil {
 			return "err"
 		}
 		return nhx(sig.R) + " " + nhx(sig.S)
 	})
 	mwReg("mem.sbmul", 0, func(win []byte, a []string) string {
-		x, y := curve.ScalarBaseMult(win)
+		x, y := bec.S256().ScalarBaseMult(win)
 		return ptStr(x, y)
 	})
 	mwReg("mem.smul", 2, func(win []byte, a []string) string {
-		x, y := curve.ScalarMult(mwNat(a[0]), mwNat(a[1]), win)
+		x, y := bec.S256().ScalarMult(mwNat(a[0]), mwNat(a[1]), win)
 		return ptStr(x, y)
 	})
 	mwReg("mem.privbytes", 0, func(win []byte, a []string) string {
-		priv, pub := bec.PrivKeyFromBytes(curve, win)
+		priv, pub := bec.PrivKeyFromBytes(bec.S256(), win)
 		return hx(priv.Serialise()) + " " + ptStr(pub.X, pub.Y)
 	})
 	mwReg("mem.newmaster", 0, func(win []byte, a []string) string {
@@ -244,6 +244,13 @@ func init() {
 	})
 	mwReg("mem.xkstring", 1, func(win []byte, a []string) string {
 		return hx([]byte(mwXKey(win, a[0] == "1").String()))
+	})
+	mwReg("mem.xkaddr", 2, func(win []byte, a []string) string {
+		id, err := strconv.Atoi(a[1])
+		if err != nil {
+			return "bad-op"
+		}
+		return hx([]byte(mwXKey(win, a[0] == "1").Address(&chaincfg.Params{Name: "x", LegacyPubKeyHashAddrID: byte(id)})))
 	})
 	mwReg("mem.xkchild", 2, func(win []byte, a []string) string {
 		i, err := strconv.ParseUint(a[1], 10, 32)
@@ -271,7 +278,7 @@ func init() {
 		b1, w1 := mwWindow(p, spare, sg)
 		b2, w2 := mwWindow(p, spare, hsh)
 		res := "err"
-		if k, c, err := bec.RecoverCompact(curve, w1, w2); err == nil {
+		if k, c, err := bec.RecoverCompact(bec.S256(), w1, w2); err == nil {
 			res = ptStr(k.X, k.Y) + " " + b2s(c)
 		}
 		return "ok " + hx(b1) + " " + hx(b2) + " " + res
